@@ -765,6 +765,14 @@ def gen_C14(rng, count, tier):
         for k in range(nblocks):
             n += 1
             yield ("copier", " ".join(["src:" + hx(bytes(range(65, 65 + ln))), "block:%d" % block, "stopin:%d" % k, "start"] + ["turn"] * (nblocks + 3)))
+    # the same over the whole domain of the theorem C14.stopin_equiv: a range (seek or not), a source that has been read
+    # from, a write the copy does not get to, fewer turns than that write needs, a device fault before / at / after it
+    for extra in (["range:2:5"], ["range:0:3"], ["range:3:-1"], ["prepos:2"], ["prepos:1", "range:0:4"], ["range:5:2"],
+                  ["fail:write:0"], ["fail:write:1"], ["fail:write:2"], ["fail:read:1"], ["fail:read:2"], ["fail:seek", "range:2:5"]):
+        for k in range(0, 4):
+            for turns in (k, k + 1, 6):
+                n += 1
+                yield ("copier", " ".join(["src:" + hx(bytes(range(65, 72))), "block:3"] + extra + ["stopin:%d" % k, "start"] + ["turn"] * turns))
     maxlen = 5 if tier == "quick" else 8
     # exhaustive: random-access source, every block size, every range, left to run
     for ln in range(0, maxlen + 1):
